@@ -1292,6 +1292,16 @@ class TensorDictParams(TensorDictBase, nn.Module):
     @_apply_on_data
     def apply_(self, fn: Callable, *others, **kwargs) -> T: ...
 
+    def _relock_content(self, previous: TensorDictBase) -> None:
+        # _apply swaps the content for a copy: the copy must be locked like the content it replaces
+        # (and know this module as its lock parent), or a locked TensorDictParams ends up unlocked
+        if self._is_locked:
+            self._param_td._propagate_lock(
+                [weakref.ref(self)], is_compiling=is_compiling()
+            )
+        elif previous.is_locked:
+            self._param_td.lock_()
+
     @implement_for("torch", "2.1")
     def _apply(self, fn, recurse=True):
         self._param_td._erase_cache()
@@ -1310,6 +1320,7 @@ class TensorDictParams(TensorDictBase, nn.Module):
         cd = out._check_device(raise_exception=False)
         if not cd:
             out.auto_device_()
+        self._relock_content(param_td)
         return out
 
     @implement_for("torch", None, "2.1")
@@ -1330,6 +1341,7 @@ class TensorDictParams(TensorDictBase, nn.Module):
         cd = out._check_device(raise_exception=False)
         if not cd:
             out.auto_device_()
+        self._relock_content(param_td)
         return out
 
 
